@@ -783,13 +783,14 @@ class TOCSchemas:
         return schema_ref in self._schemas
 
     def __getitem__(self, schema_ref: PluginRef):
+        if schema_ref not in self._schemas:
+            raise KeyError(schema_ref)
         node_path = self._jsonschema_path_for(schema_ref)
-        assert node_path in self._raw
         return self._load_json(cast(H5DatasetLike, self._raw[node_path]))
 
     def get(self, schema_ref: PluginRef):
         try:
-            self[schema_ref]
+            return self[schema_ref]
         except KeyError:
             return None
 
